@@ -112,6 +112,15 @@ CHECKS = {
         "Typed receive meeting the other frame kind or the connect event is left open (accepted variation). Server delivers connect first. "
         "asyncio scheduling is irrelevant: the wrapper never suspends except in the server's receive.",
     ),
+    "C12": (
+        "exploration",
+        "grammar-aware Hypothesis fuzzing of abstract requests (per-header grammars, mutations, raw Latin-1 noise, hostile paths/queries/bodies) with exception bucketing by (type, innermost baize frame); Atheris coverage-guided campaign in the thorough tier",
+        "Generated hostile requests are presented as WSGI environ and ASGI scope+messages; every accessor of both Request classes, Router (all "
+        "convertor types), Subpaths, Hosts, Files, Pages and FileResponse on both interfaces, and the parsers (parse_range, URL properties, "
+        "parse_header, MediaType, QueryParams, MultipartDecoder) are probed. Allowed outcomes: value, response, HTTPException 4xx, "
+        "ClientDisconnect, RuntimeError('Stream consumed'); anything else is an escape, bucketed so that each root cause is reported once.",
+        "Server-provided values (REMOTE_PORT, SERVER_PORT, scheme) are well-formed. URL(text) called by the application may raise urlsplit's ValueError at construction.",
+    ),
     "C13": (
         "exploration",
         "exhaustive code-point sweep over every mutation path + Hypothesis mutation histories against a dict model, emitted headers inspected through WSGI/ASGI gateways",
